@@ -10,7 +10,9 @@ CHECKS = {
                 "replies, one per request in order, ends with the map's store and closes cleanly; built on the stream theorem of C08. "
                 "The crate's own client (src/net/client.rs) is modelled too: end to end, the calls of a client session answered by the "
                 "handler return call by call what the map says for every segmentation of the reply stream; a stream cut inside a reply "
-                "gives a reset, never a value. Tied to /repo by driving the real server over TCP with generated request sequences under "
+                "gives a reset, never a value. The loop is also composed with the engine model (one get / set per command, one delete per "
+                "DEL key): over the engine started on an empty directory it writes the same bytes and ends in an invariant engine state "
+                "denoting the same map (C06_over_engine). Tied to /repo by driving the real server over TCP with generated request sequences under "
                 "several segmentations and pipelining modes (reply bytes and final store compared with the model and with an independent "
                 "map oracle), by running the real client against a scripted server (expected, error, other, doubled, truncated, missing and "
                 "malformed replies) and against the real server, each compared with the model.",
